@@ -104,12 +104,13 @@ def run(tier, seed, t0):
             if impl != m:
                 raise C.Violation(PROP, "correspondence parse model vs Response::from_bytes fails (model stale; the implementation-side oracle found no stalled line)",
                                   "stream %s\ninput %s\nimplementation: %s\nmodel:          %s" % (stream, C.show_input(h), impl[:400], m[:400]), False)
+    fn_cases, fn_count = C.fn_correspondence(PROP, tier)   # every callable parser function on its own inputs, model vs code
     C.write_evidence(PROP, tier, seed, t0, obligations=proof["obligations"] + 1, discharged=proof["discharged"] + 1,
                      checker_cmd="tools/rs2coq /repo coq/gen && make -C coq Properties/C09.vo (coqc 8.16.1) + harness parse {valid,follow,mutate,garbage} vs an independent lexical framer and vs ocaml/driver parse",
                      evaluations=total + evals, distinct_nontrivial=distinct,
                      rule="search oracle (implementation only): an independent Python transcription of the framing rule (scan to CRLF; a line ending in {n} skips n bytes) decides which generated buffers hold a complete frame (valid responses, responses followed by more, token/byte mutations, garbage lines); on those the parser must not answer Incomplete, and an accepted response whose first line has no literal must end at the first CRLF. distinct_nontrivial = distinct lexically complete buffers.",
                      samples=samples,
-                     extra=dict(theorems=proof["names"], lexically_complete=complete, correspondence_cases=evals),
+                     extra=dict(theorems=proof["names"], lexically_complete=complete, correspondence_cases=evals, per_function_cases=fn_cases, per_function_fns=fn_count),
                      assumptions=["proved: never Incomplete on a complete frame (c09_no_incomplete_on_complete_line). The clause 'an accepted response without literals ends exactly at the first CRLF' is checked by the oracle on every run but is not yet a pinned theorem",
                                   "nom primitives/combinators modelled (Nom.v, Interp.v), validated by the correspondence"])
     print("C09 ok: %d theorems; %d/%d buffers lexically complete; correspondence %d cases" % (proof["obligations"], complete, total, evals))
